@@ -8,7 +8,9 @@ VAL = ['-f', '-b', '-l', '--libwayland', '--filter', '--break', '--load']
 CANON = {'--filter': '-f', '--break': '-b', '--load': '-l'}
 MATCHERS = ['wl_surface', 'wl_pointer.[motion, axis]', '! .frame', '*', '!', '5b', 'xdg_* ! xdg_popup, .get_popup', '(x=0, y=0)', 'B: .commit', '.(nil)',
             ' wl_surface ', 'a, b ! c']
-BADMATCHERS = ['(', '[', 'a.b.c', 'x ! y ! z', '', ' ', 'wl_a@5', '"']
+BADMATCHERS = ['(', '[', 'a.b.c', 'x ! y ! z', '', ' ', 'wl_a@5', '"', '\t', '   ', ' \t ']
+# malformed by the documented grammar whatever the tool's parser says: unbalanced brackets / quote, two dots, two `!`, nothing at all
+SURELY_BAD = {'(', '[', 'a.b.c', 'x ! y ! z', '', ' ', '"', '\t', '   ', ' \t '}
 VALUES = ['x y', 'a"b', 'c\\d', "it's", 'a\\nb', 'back\\\\slash', '\\', '"', "'", '""', 'tab\\t', '/tmp', 'file.log', 'r', 'g', 'run', 'gdb', '$HOME', '`x`', 'a;b', 'ü', '%s', '{0}',
           'main.py', 'x=1', 'a,b', '\U0001F600 term', 'caf\u00e9 \u4e2d\u6587', '\U00020000']      # (also characters outside the Basic Multilingual Plane)
 MARK = ['-r', '--run', '-g', '--gdb']
@@ -157,6 +159,8 @@ def check_split(words, res, argv0='main.py'):
             try:
                 matcher.parse(vals[key])
             except RuntimeError:
+                bad = key
+            if vals[key] in SURELY_BAD:
                 bad = key
     if bad:
         if r[0] == 'ok':
